@@ -23,6 +23,9 @@ class Generator:
         self.w = dict(self.p["weights"])
         self.n_fresh = 0
         self.cur_session = 0
+        if not mach.cfg.get("hold_refs", True):
+            self.w["ref"] = 0
+            self.p = dict(self.p, refarg_mix=dict(self.p.get("refarg_mix", {}), r=0))
         self.interrupt_step = None
         if mach.cfg.get("population") == "interrupt":
             self.interrupt_step = self.rng.randrange(3, max(4, mach.cfg["max_steps"] - 2))
@@ -928,9 +931,9 @@ class Generator:
         pt = self.pick_table()
         if pt is None:
             return None
-        kind = self.rng.choice(self.p.get("observe_kinds", ["export", "build_query", "repr", "lazy", "dict", "columns", "ast_repr", "expr_repr"]))
+        kind = self.rng.choice(self.p.get("observe_kinds", ["export", "build_query", "repr", "lazy", "dict", "columns", "ast_repr", "expr_repr", "expr_export", "show_query"]))
         st = {"op": "observe", "t": pt.id, "kind": kind}
-        if kind == "expr_repr":
+        if kind in ("expr_repr", "expr_export"):
             if not self.m.exprs:
                 return None
             st["x"] = self.rng.choice(list(self.m.exprs))
